@@ -43,6 +43,9 @@ func genPrograms(seed uint64, stream string, nFlows, nPars int, o prog.GenOpts, 
 		r := prog.NewRand(seed, hashS(stream+"/par"), uint64(i))
 		out = append(out, prog.GenPar(r, fmt.Sprintf("q%04d", i), o))
 	}
+	for i := 0; i < o.Wide; i++ {
+		out = append(out, prog.GenWide(i+int(seed%7), fmt.Sprintf("w%04d", i), o))
+	}
 	if o.ParMatrix {
 		for i := 0; i < prog.ParMatrixSize; i++ {
 			out = append(out, prog.GenParMatrix(i, fmt.Sprintf("m%04d", i), o))
